@@ -344,6 +344,35 @@ func c07Mutate(seed []byte, c c07Case) ([]byte, bool) {
 			return finishMut(append(append(append([]byte(nil), data[:l[0]]...), nl...), data[l[1]:]...), c), true
 		}
 		return nil, false
+	case "eolmix":
+		// mixed line endings: line A (of the LF or CRLF rendering) gets its ending toggled (B=0), an empty line
+		// ending in LF (B=1) or CRLF (B=2) after it, or a bare CR as its ending (B=3)
+		base := finishMut(append([]byte(nil), data...), c)
+		spans := lineSpans(base)
+		if c.A >= len(spans) {
+			return nil, false
+		}
+		sp := spans[c.A]
+		line := base[sp[0]:sp[1]]
+		body := bytes.TrimRight(line, "\r\n")
+		hadCRLF := bytes.HasSuffix(line, []byte("\r\n"))
+		var repl []byte
+		switch c.B {
+		case 0:
+			if hadCRLF {
+				repl = append(append([]byte(nil), body...), '\n')
+			} else {
+				repl = append(append([]byte(nil), body...), '\r', '\n')
+			}
+		case 1:
+			repl = append(append([]byte(nil), line...), '\n')
+		case 2:
+			repl = append(append([]byte(nil), line...), '\r', '\n')
+		default:
+			repl = append(append([]byte(nil), body...), '\r')
+		}
+		out := append(append(append([]byte(nil), base[:sp[0]]...), repl...), base[sp[1]:]...)
+		return out, true
 	case "numgrow":
 		// k-th run of digits gets B more digits appended
 		idx := reDigits.FindAllIndex(data, -1)
@@ -570,7 +599,7 @@ func init() {
 	register(&Check{ID: "C07", Level: "model_checking", Quick: 240 * time.Second, Thor: 40 * time.Minute,
 		Run: func(r *engine.Run) bool {
 			c07LoadSeeds()
-			r.Rule = "seeds = corpus files + generated GenBank (every field kind), CONTIG-only, multi-record GenBank and FASTA, as LF and CRLF; mutations = every truncation offset, every line deleted/duplicated/swapped, every offset x 12 replacement bytes (small seeds), declared LOCUS length over 0..2N, every field line's indent -3..+3, value removed, name widened; environment answers = one full read, one short read at every offset, one byte per read; string parsers: every token string up to length k over per-parser alphabets and every byte string of length <=2; history independence: every token string up to length 4-5 of the seven string parsers evaluated in ascending and in descending order in two fresh processes must get the same answer; oracle: no panic, returns within a watchdog, Len()==residues, truncated streams yield a prefix of the full stream's records, a declared length != ORIGIN count is an error; distinct key = (seed, mutation, reader); non-trivial = every mutated input"
+			r.Rule = "seeds = corpus files + generated GenBank (every field kind), CONTIG-only, multi-record GenBank and FASTA, as LF and CRLF; mutations = every truncation offset, mixed line endings (one line's ending toggled, blank lines with either ending, a bare CR), every line deleted/duplicated/swapped, every offset x 12 replacement bytes (small seeds), declared LOCUS length over 0..2N, every field line's indent -3..+3, value removed, name widened; environment answers = one full read, one short read at every offset, one byte per read; string parsers: every token string up to length k over per-parser alphabets and every byte string of length <=2; history independence: every token string up to length 4-5 of the seven string parsers evaluated in ascending and in descending order in two fresh processes must get the same answer; oracle: no panic, returns within a watchdog, Len()==residues, truncated streams yield a prefix of the full stream's records, a declared length != ORIGIN count is an error; distinct key = (seed, mutation, reader); non-trivial = every mutated input"
 			thorough := r.Tier == "thorough"
 			complete := true
 			eval := func(c c07Case, size int) bool {
@@ -688,6 +717,16 @@ func init() {
 						if off%256 == 0 && r.Expired() {
 							complete = false
 							break
+						}
+					}
+				}
+				if small(name) || thorough {
+					nl := len(lineSpans(seed))
+					for i := 0; i < nl; i++ {
+						for v := 0; v < 4; v++ {
+							for _, crlf := range []bool{false, true} {
+								eval(c07Case{Kind: "scan", Seed: name, Mut: "eolmix", A: i, B: v, CRLF: crlf}, 270000+i)
+							}
 						}
 					}
 				}
